@@ -111,6 +111,15 @@ func c16Gen(seed int64, idx int) c16Pkg {
 		// finding K07 - so the line is compared between layouts, not with Go)
 		"func showdm() string {\n\treturn fmt.Sprint(divmod(17, 5))\n}\n",
 		"func usesBuiltinNames(n int) string {\n\tq, r := divmod(n, 5)\n\treturn fmt.Sprint(max(n, 3), min([]int{n, 4, 8}), clear(n), q, r)\n}\n",
+		// types without fields, each with a method of the same name
+		"type Dog struct {\n}\n",
+		"type Cat struct {\n}\n",
+		"type Cow struct {\n}\n",
+		"func (d *Dog) Sound() string {\n\treturn \"woof\"\n}\n",
+		"func (c *Cat) Sound() string {\n\treturn \"meow\"\n}\n",
+		"func (c *Cow) Sound() string {\n\treturn \"moo\"\n}\n",
+		"func (c *Cat) Legs() int {\n\treturn 4\n}\n",
+		"func sounds() string {\n\td := &Dog{}\n\tc := &Cat{}\n\tw := &Cow{}\n\treturn d.Sound() + c.Sound() + w.Sound() + fmt.Sprint(c.Legs())\n}\n",
 		"func even(n int) bool {\n\tif n == 0 {\n\t\treturn true\n\t}\n\treturn odd(n - 1)\n}\n",
 		"func odd(n int) bool {\n\tif n == 0 {\n\t\treturn false\n\t}\n\treturn even(n - 1)\n}\n",
 	)
@@ -134,7 +143,7 @@ func c16Gen(seed int64, idx int) c16Pkg {
 		body.WriteString("\treturn x\n}\n")
 		p.Hoist = append(p.Hoist, body.String())
 	}
-	p.Hoist = append(p.Hoist, fmt.Sprintf("func main() {\n\tfmt.Println(\"main\", g0, g1, g2, g3, f%d(g1), mk(k2).B.Name())\n\tfmt.Println(odd(k2), even(k1), gs, Tag(mk(k1)), Name(mk(k2).B), S)\n\tsz := &Size{W: k1, H: 2}\n\tbx := &Box{Tag: \"b\"}\n\tp := pair(k2)\n\tw := wide(k1)\n\tfmt.Println(area(sz, bx), sz.W, sz.H, bx.H, bx.W, p.F00, p.F16, p.F08, w.F00, w.F03, w.F16, w.F19)\n\tfmt.Println(\"S: \", sz, bx, p, litA(), litB(), localT(4), bl)\n\tfmt.Println(usesBuiltinNames(k1), usesBuiltinNames(k2))\n\tfmt.Println(\"S: \", showdm())\n}\n", nf-1))
+	p.Hoist = append(p.Hoist, fmt.Sprintf("func main() {\n\tfmt.Println(\"main\", g0, g1, g2, g3, f%d(g1), mk(k2).B.Name())\n\tfmt.Println(odd(k2), even(k1), gs, Tag(mk(k1)), Name(mk(k2).B), S)\n\tsz := &Size{W: k1, H: 2}\n\tbx := &Box{Tag: \"b\"}\n\tp := pair(k2)\n\tw := wide(k1)\n\tfmt.Println(area(sz, bx), sz.W, sz.H, bx.H, bx.W, p.F00, p.F16, p.F08, w.F00, w.F03, w.F16, w.F19)\n\tfmt.Println(\"S: \", sz, bx, p, litA(), litB(), localT(4), bl)\n\tfmt.Println(usesBuiltinNames(k1), usesBuiltinNames(k2))\n\tfmt.Println(\"S: \", showdm())\n\tfmt.Println(sounds(), len(doc), doc[:5])\n}\n", nf-1))
 	// the spine keeps its order: later initialisers depend on earlier ones
 	p.Spine = []string{
 		fmt.Sprintf("const k1 = %d\n", rng.Range(1, 9)),
@@ -145,6 +154,8 @@ func c16Gen(seed int64, idx int) c16Pkg {
 		fmt.Sprintf("var g3 = fmt.Sprint(even(g2&7), f%d(g2))\n", rng.Intn(nf)),
 		"var gs []string\n",
 		"var bl []string\n",
+		// text that looks like a build constraint inside a string: it is text
+		"var doc = `usage:\n//go:build ignore\n// +build ignore\n//go:build !goat\nend`\n",
 		// package-level statements (goatlang runs them in place; for the Go reference each is wrapped into an init function)
 		"if g0 > 0 {\n\tsz := &Size{W: g0, H: 2}\n\tbl = append(bl, fmt.Sprint(sz.W+sz.H, localT(3)))\n}\n",
 		"for i := 0; i < 2; i++ {\n\tb := &Box{H: i}\n\tbl = append(bl, fmt.Sprint(b.H))\n}\n",
